@@ -65,6 +65,17 @@ pub fn lref(v: u8, len: usize) -> usize {
     }
 }
 
+/// like `lref`, but the in-range values are spread over `lo..hi` (e.g. the layers that can be raised / merged down)
+pub fn lref_in(v: u8, lo: usize, hi: usize, len: usize) -> usize {
+    if v < 240 && hi > lo {
+        lo + (v as usize * (hi - lo)) / 240
+    } else if v < 240 {
+        0
+    } else {
+        len + (v - 240) as usize
+    }
+}
+
 #[derive(Clone, Debug, Hash, PartialEq, Eq, Serialize, Deserialize)]
 pub enum Op {
     SetChar { x: i8, y: i8, c: CellM },
@@ -245,11 +256,11 @@ impl Interp {
             Op::SwapChar { x1, y1, x2, y2 } => (st.swap_char((*x1 as i32, *y1 as i32), (*x2 as i32, *y2 as i32)), on_cur),
             Op::AddNewLayer { l } => (st.add_new_layer(lref(*l, n)), structural),
             Op::RemoveLayer { l } => (st.remove_layer(lref(*l, n)), structural),
-            Op::RaiseLayer { l } => (st.raise_layer(lref(*l, n)), structural),
-            Op::LowerLayer { l } => (st.lower_layer(lref(*l, n)), structural),
+            Op::RaiseLayer { l } => (st.raise_layer(lref_in(*l, 0, n.saturating_sub(1), n)), structural),
+            Op::LowerLayer { l } => (st.lower_layer(lref_in(*l, 1, n, n)), structural),
             Op::DuplicateLayer { l } => (st.duplicate_layer(lref(*l, n)), structural),
             Op::ClearLayer { l } => (st.clear_layer(lref(*l, n)), Touch { layer: Some(lref(*l, n)), cell_edit: true, reorder: false }),
-            Op::MergeLayerDown { l } => (st.merge_layer_down(lref(*l, n)), Touch { layer: Some(lref(*l, n).saturating_sub(1)), cell_edit: true, reorder: true }),
+            Op::MergeLayerDown { l } => (st.merge_layer_down(lref_in(*l, 1, n, n)), Touch { layer: Some(lref_in(*l, 1, n, n).saturating_sub(1)), cell_edit: true, reorder: true }),
             Op::ToggleLayerVisibility { l } => (st.toggle_layer_visibility(lref(*l, n)), Touch { layer: Some(lref(*l, n)), cell_edit: false, reorder: false }),
             Op::AnchorLayer => (st.anchor_layer(), Touch { layer: cur.map(|c| c.saturating_sub(1)), cell_edit: true, reorder: true }),
             Op::AddFloatingLayer => (st.add_floating_layer(), Touch { layer: cur, cell_edit: false, reorder: false }),
@@ -393,7 +404,7 @@ fn py() -> BoxedStrategy<i8> {
     prop_oneof![8 => 0i8..=7, 2 => -2i8..=21, 1 => Just(-1i8), 1 => Just(8i8)].boxed()
 }
 fn page() -> BoxedStrategy<u8> {
-    prop_oneof![3 => Just(0u8), 3 => Just(1u8), 2 => Just(2u8), 1 => Just(3u8), 1 => Just(100u8)].boxed()
+    prop_oneof![3 => Just(0u8), 5 => Just(1u8), 2 => Just(2u8), 1 => Just(3u8), 1 => Just(100u8)].boxed()
 }
 fn font_m() -> BoxedStrategy<FontM> {
     prop_oneof![3 => (0u8..44).prop_map(FontM::Ansi), 1 => (prop_oneof![Just(8u8), Just(14u8), Just(16u8)], any::<u8>()).prop_map(|(height, seed)| FontM::Custom { height, seed })].boxed()
@@ -436,7 +447,7 @@ pub fn alphabet(flip_w: u32) -> Vec<(u32, &'static str, BoxedStrategy<Op>)> {
         (2, "AddFloatingLayer", j(Op::AddFloatingLayer)),
         (4, "MoveLayer", (-6i8..=14, -5i8..=10).prop_map(|(x, y)| Op::MoveLayer { x, y }).boxed()),
         (4, "SetLayerSize", (lr(), dim(), dimh()).prop_map(|(l, w, h)| Op::SetLayerSize { l, w, h }).boxed()),
-        (3, "StampLayerDown", j(Op::StampLayerDown)),
+        (2, "StampLayerDown", j(Op::StampLayerDown)),
         (3, "RotateLayer", j(Op::RotateLayer)),
         (3, "MakeLayerTransparent", j(Op::MakeLayerTransparent)),
         (3, "UpdateLayerProperties", (lr(), props_m()).prop_map(|(l, p)| Op::UpdateLayerProperties { l, p }).boxed()),
@@ -482,7 +493,7 @@ pub fn alphabet(flip_w: u32) -> Vec<(u32, &'static str, BoxedStrategy<Op>)> {
         (2, "CopyPaste", j(Op::CopyPaste)),
         (1, "PasteSixel", (1u8..=3, 1u8..=2).prop_map(|(w, h)| Op::PasteSixel { w, h }).boxed()),
         (3, "SetIceMode", (0u8..3).prop_map(|m| Op::SetIceMode { m }).boxed()),
-        (3, "SetPaletteMode", (0u8..4).prop_map(|m| Op::SetPaletteMode { m }).boxed()),
+        (2, "SetPaletteMode", (0u8..4).prop_map(|m| Op::SetPaletteMode { m }).boxed()),
         (2, "SwitchToPalette", pal_strategy().prop_map(|p| Op::SwitchToPalette { p }).boxed()),
         (2, "UpdateSauceData", prop::option::weighted(0.8, sauce_strategy()).prop_map(|s| Op::UpdateSauceData { s }).boxed()),
         (2, "SwitchToFontPage", page().prop_map(|p| Op::SwitchToFontPage { p }).boxed()),
@@ -493,7 +504,7 @@ pub fn alphabet(flip_w: u32) -> Vec<(u32, &'static str, BoxedStrategy<Op>)> {
         (2, "SetFont", font_m().prop_map(|f| Op::SetFont { f }).boxed()),
         (2, "ReplaceFontUsage", (page(), page()).prop_map(|(from, to)| Op::ReplaceFontUsage { from, to }).boxed()),
         (2, "ChangeFontSlot", (page(), page()).prop_map(|(from, to)| Op::ChangeFontSlot { from, to }).boxed()),
-        (2, "RemoveFont", page().prop_map(|p| Op::RemoveFont { p }).boxed()),
+        (1, "RemoveFont", page().prop_map(|p| Op::RemoveFont { p }).boxed()),
         (6, "SetCurrentLayer", lr().prop_map(|l| Op::SetCurrentLayer { l }).boxed()),
         (6, "MoveCaret", (px(), py()).prop_map(|(x, y)| Op::MoveCaret { x, y }).boxed()),
         (1, "SetMirrorMode", any::<bool>().prop_map(|on| Op::SetMirrorMode { on }).boxed()),
@@ -510,6 +521,9 @@ pub fn op_strategy(avoid: &[String], flip_w: u32) -> BoxedStrategy<Op> {
 }
 
 pub fn history_strategy(avoid: &[String], flip_w: u32) -> BoxedStrategy<Vec<Op>> {
+    if flip_w > 0 {
+        return prop::collection::vec(op_strategy(avoid, flip_w), 1..=6).boxed();
+    }
     prop_oneof![
         6 => prop::collection::vec(op_strategy(avoid, flip_w), 1..=6),
         3 => prop::collection::vec(op_strategy(avoid, flip_w), 4..=14),
